@@ -440,6 +440,38 @@ Proof.
 Qed.
 
 (* ------------------------------------------------------------------ filespec_to_file_map *)
+Lemma dottedi_tail x : dottedi x = true ->
+  exists t, x = DOT :: t /\ ~ In DOT t /\ all_dots (DOT :: t) = false.
+Proof.
+  intros H. apply dottedi_inv in H as (t & -> & Hn & Hf). exists t. split; [reflexivity|].
+  assert (Nd : ~ In DOT t).
+  { intros Hin. rewrite Forall_forall in Hf. apply Hf in Hin. apply is_ialnum_not_dot in Hin. tauto. }
+  split; [assumption|]. destruct t as [|c t]; [congruence|]. cbn.
+  destruct (Z.eqb_spec c DOT) as [->|]; [|reflexivity]. exfalso. apply Nd. now left.
+Qed.
+
+Lemma all_dots_app a b : all_dots (a ++ b) = all_dots a && all_dots b.
+Proof. unfold all_dots. apply forallb_app. Qed.
+
+Lemma splitext_addext_written sufs root x o :
+  strip_suffix false sufs (root ++ x ++ opt_str o) = (root ++ x, o) -> dottedi x = true ->
+  splitext_addext false sufs (root ++ x ++ opt_str o) = (root, x, opt_str o).
+Proof.
+  intros Hst Hx. unfold splitext_addext. rewrite Hst.
+  destruct (dottedi_tail x Hx) as (t & -> & Nd & Had).
+  rewrite (rfind_last DOT root t Nd), all_dots_app, Had, andb_false_r.
+  assert (H0 : 0 <= zlen root) by (unfold zlen; lia).
+  destruct (Z.ltb_spec (zlen root) 0); [lia|]. cbn [orb].
+  now rewrite take_app_exact, drop_app_exact.
+Qed.
+
+Lemma splitext_addext_nosuf root x : dottedi x = true -> splitext_addext false [] (root ++ x) = (root, x, []).
+Proof.
+  intros Hx. pose proof (splitext_addext_written [] root x None) as H. cbn [opt_str] in H.
+  rewrite !app_nil_r in H. now apply H.
+Qed.
+
+
 Lemma wf_class_inv k : wf_class k = true ->
   wf_names k = true /\ fkind k < 2 /\
   (forall v, In v (vexts k) -> In v (exts_of k) \/ (fkind k = 1 /\ v = MGZ)) /\
@@ -480,19 +512,20 @@ Proof.
   assert (Hde : dottedl e = true) by (rewrite forallb_forall in Hd; auto).
   assert (Hde' : dottedi e' = true).
   { apply (dottedi_variant e e' He). now apply dotted_dottedi, dottedl_dotted. }
-  assert (Hx : str_eqb (lower (snd (os_splitext (root ++ e')))) MGZ = false).
-  { apply str_eqb_neq. destruct (os_splitext_dotted root e' Hde') as [-> | ->]; cbn [snd].
-    - rewrite He, (dottedl_lower e Hde). intros ->. contradiction.
-    - discriminate. }
+  assert (Hx : str_eqb (lower (snd (fst (splitext_addext false [] (root ++ e'))))) MGZ = false).
+  { rewrite (splitext_addext_nosuf root e' Hde'). cbn [fst snd]. apply str_eqb_neq.
+    rewrite He, (dottedl_lower e Hde). intros ->. contradiction. }
   rewrite Hx. pose proof (tf_named_member k root nm e e' [] Hn Hin He (or_introl eq_refl)) as Ht.
   now rewrite app_nil_r in Ht.
 Qed.
 
 Lemma filespec_mgz k root m' :
-  fkind k = 1 -> lower m' = MGZ -> os_splitext (root ++ m') = (root, m') ->
+  fkind k = 1 -> lower m' = MGZ ->
   filespec_to_file_map k (root ++ m') = Ok [(IMAGE, root ++ m')].
 Proof.
-  intros Hk Hm Ho. unfold filespec_to_file_map. rewrite Hk, Ho. cbn [snd Z.eqb Pos.eqb andb].
+  intros Hk Hm. unfold filespec_to_file_map.
+  assert (Hd : dottedi m' = true) by (apply (dottedi_variant MGZ m'); [exact Hm|reflexivity]).
+  rewrite Hk, (splitext_addext_nosuf root m' Hd). cbn [fst snd Z.eqb Pos.eqb andb].
   rewrite Hm. now rewrite str_eqb_refl.
 Qed.
 
@@ -560,25 +593,19 @@ Proof.
   exists tf, n. now rewrite Hnt in Hg.
 Qed.
 
-(* posixpath.splitext (MGHImage.filespec_to_file_map) and splitext_addext (path_maybe_image)
-   agree that the name ends in a spelling of ".mgz" *)
-Definition mgz_agree (fn : str) : Prop :=
-  forall r x a, splitext_addext false [] fn = (r, x, a) -> lower x = MGZ ->
-                lower (snd (os_splitext fn)) = MGZ.
-
 Lemma ext_valid_accepts k fn :
-  wf_class k = true -> ext_valid k fn = true -> (fkind k = 1 -> mgz_agree fn) ->
+  wf_class k = true -> ext_valid k fn = true ->
   exists fm n, filespec_to_file_map k fn = Ok fm /\ dict_get fm n = Some fn.
 Proof.
-  intros Hwf Hv Hag.
+  intros Hwf Hv.
   destruct (ext_valid_inv k fn Hwf Hv) as (root & ext & o & Hst & Hsa & Hin & Hde).
   destruct (wf_class_inv k Hwf) as (Hn & _ & Hve & H1).
   unfold filespec_to_file_map.
-  destruct ((fkind k =? 1) && str_eqb (lower (snd (os_splitext fn))) MGZ) eqn:Eb.
+  destruct ((fkind k =? 1) && str_eqb (lower (snd (fst (splitext_addext false [] fn)))) MGZ) eqn:Eb.
   - exists [(IMAGE, fn)], IMAGE. split; reflexivity.
   - destruct (Hve _ Hin) as [Hx|[Hk Hm]]; [now apply (tf_of_valid k fn root ext o)|].
     exfalso. destruct (H1 Hk) as (Hcs & _). rewrite Hcs in Hsa.
-    specialize (Hag Hk _ _ _ Hsa Hm). rewrite Hk, Hag in Eb. discriminate.
+    rewrite Hk, Hsa in Eb. cbn [fst snd Z.eqb Pos.eqb andb] in Eb. rewrite Hm, str_eqb_refl in Eb. discriminate.
 Qed.
 
 (* _sniff_meta_for never raises TypesFilenamesError on a name whose extension was accepted *)
@@ -644,31 +671,6 @@ Proof.
 Qed.
 
 (* ------------------------------------------------------------------ written names are accepted by their class *)
-Lemma dottedi_tail x : dottedi x = true ->
-  exists t, x = DOT :: t /\ ~ In DOT t /\ all_dots (DOT :: t) = false.
-Proof.
-  intros H. apply dottedi_inv in H as (t & -> & Hn & Hf). exists t. split; [reflexivity|].
-  assert (Nd : ~ In DOT t).
-  { intros Hin. rewrite Forall_forall in Hf. apply Hf in Hin. apply is_ialnum_not_dot in Hin. tauto. }
-  split; [assumption|]. destruct t as [|c t]; [congruence|]. cbn.
-  destruct (Z.eqb_spec c DOT) as [->|]; [|reflexivity]. exfalso. apply Nd. now left.
-Qed.
-
-Lemma all_dots_app a b : all_dots (a ++ b) = all_dots a && all_dots b.
-Proof. unfold all_dots. apply forallb_app. Qed.
-
-Lemma splitext_addext_written sufs root x o :
-  strip_suffix false sufs (root ++ x ++ opt_str o) = (root ++ x, o) -> dottedi x = true ->
-  splitext_addext false sufs (root ++ x ++ opt_str o) = (root, x, opt_str o).
-Proof.
-  intros Hst Hx. unfold splitext_addext. rewrite Hst.
-  destruct (dottedi_tail x Hx) as (t & -> & Nd & Had).
-  rewrite (rfind_last DOT root t Nd), all_dots_app, Had, andb_false_r.
-  assert (H0 : 0 <= zlen root) by (unfold zlen; lia).
-  destruct (Z.ltb_spec (zlen root) 0); [lia|]. cbn [orb].
-  now rewrite take_app_exact, drop_app_exact.
-Qed.
-
 Lemma strip_suffix_written k root e e' s' :
   wf_class k = true -> In e (vexts k) -> lower e' = lower e -> suffix_ok k s' ->
   dottedi e' = true /\
@@ -724,57 +726,23 @@ Proof.
   destruct (sniff_name k fn); congruence.
 Qed.
 
-Lemma strip_suffix_nil fn : strip_suffix false [] fn = (fn, None).
-Proof. reflexivity. Qed.
-
-Lemma mgz_agree_one root x :
-  dottedi x = true -> (lower x = MGZ -> os_splitext (root ++ x) = (root, x)) -> mgz_agree (root ++ x).
-Proof.
-  intros Hx Hst r x0 a Hsa Hm.
-  pose proof (splitext_addext_written [] root x None) as H. cbn [opt_str] in H. rewrite !app_nil_r in H.
-  rewrite (H (strip_suffix_nil _) Hx) in Hsa. inversion Hsa; subst.
-  now rewrite (Hst Hm).
-Qed.
-
-Lemma mgz_agree_two root x y : dottedi x = true -> dottedi y = true -> mgz_agree (root ++ x ++ y).
-Proof.
-  intros Hx Hy. rewrite app_assoc. apply mgz_agree_one; [assumption|].
-  intros _. now apply os_splitext_two.
-Qed.
-
-Lemma mgz_agree_written k root e e' s' :
-  wf_class k = true -> In e (vexts k) -> lower e' = lower e -> suffix_ok k s' ->
-  (s' = [] -> lower e' = MGZ -> os_splitext (root ++ e') = (root, e')) ->
-  mgz_agree (root ++ e' ++ s').
-Proof.
-  intros Hwf Hin He Hs Hstem.
-  destruct (strip_suffix_written k root e e' s' Hwf Hin He Hs) as (Hde' & _).
-  destruct Hs as [->|(s & Hsin & Hls)].
-  - rewrite app_nil_r. apply mgz_agree_one; auto.
-  - apply mgz_agree_two; [assumption|].
-    destruct (wf_class_inv k Hwf) as (Hn & _). destruct (wf_names_inv k Hn) as (_ & _ & _ & _ & Hsd & _).
-    apply (dottedi_variant s s' Hls). apply dotted_dottedi. rewrite forallb_forall in Hsd. auto.
-Qed.
-
 (* the theorem about load *)
 Lemma load_finds_class ks oracle n k root e e' s' :
   table_ok ks -> nth_error ks n = Some k -> wf_class k = true ->
   In e (vexts k) -> lower e' = lower e -> suffix_ok k s' ->
   nth n oracle false = true ->
-  (s' = [] -> lower e' = MGZ -> os_splitext (root ++ e') = (root, e')) ->
   exists j kj, load_class ks oracle (root ++ e' ++ s') 0 = Ok (Some j) /\ (j <= n)%nat
     /\ nth_error ks j = Some kj /\ ext_valid kj (root ++ e' ++ s') = true
     /\ (wf_class kj = true ->
         exists fm nm, filespec_to_file_map kj (root ++ e' ++ s') = Ok fm
                       /\ dict_get fm nm = Some (root ++ e' ++ s')).
 Proof.
-  intros Hok Hn Hwf Hin He Hs Hor Hstem.
+  intros Hok Hn Hwf Hin He Hs Hor.
   pose proof (ext_valid_written k root e e' s' Hwf Hin He Hs) as Hv.
   pose proof (path_maybe_image_written k _ Hwf Hv) as Hp. rewrite <- Hor in Hp at 1.
   destruct (load_class_finds ks oracle _ 0 n k Hok Hn Hp) as (j & kj & Hl & Hj & Hnj & Hvj).
   exists j, kj. repeat split; auto.
-  intros Hwfj. apply ext_valid_accepts; auto. intros _.
-  now apply (mgz_agree_written k root e e' s').
+  intros Hwfj. now apply ext_valid_accepts.
 Qed.
 
 (* ------------------------------------------------------------------ Opener *)
@@ -843,14 +811,14 @@ Proof.
   rewrite !andb_true_iff in H. destruct H as [_ H]. now apply negb_true_iff in H.
 Qed.
 
-Lemma mgz_dotfile_refuted :
-  exists k fn fm, wf_class k = true /\ fkind k = 1 /\ In k all_classes
-    /\ ext_valid k fn = true                               (* load() accepts the name for k *)
-    /\ filespec_to_file_map k fn = Ok fm                   (* ... and k maps it to other files *)
-    /\ forall nm, dict_get fm nm <> Some fn.
+
+(* what remains of the dot-file corner: the file map keeps the name ".mgz", but Opener still asks
+   posixpath.splitext for the extension, finds none, and opens the file without gzip *)
+Lemma opener_dotfile_refuted :
+  exists k fn, In k all_classes /\ fkind k = 1
+    /\ filespec_to_file_map k fn = Ok [(IMAGE, fn)] /\ lower fn = MGZ
+    /\ opener_index image_opener_keys fn = None
+    /\ opener_index image_opener_keys (100 :: fn) = Some 3%nat.          (* "d.mgz": the gzip opener *)
 Proof.
-  exists k_MGHImage, MGZ, [(IMAGE, MGZ ++ [46;109;103;104])].
-  repeat split; try (vm_compute; reflexivity).
-  - vm_compute. tauto.
-  - intros nm. cbn [dict_get]. destruct (str_eqb IMAGE nm); discriminate.
+  exists k_MGHImage, MGZ. repeat split; try (vm_compute; reflexivity). vm_compute. tauto.
 Qed.
